@@ -71,3 +71,32 @@ def _insort(st, args, kw):
 
 
 extern('bisect.insort', model=_insort, notes='bisect.insort: ordered insertion (model in contracts/prelude.py)')
+
+
+# ---- gevent.Timeout used as an object rather than as a context manager: `t = Timeout(s)` arms nothing; `t.start()` /
+# `Timeout.start_new(s)` open a timeout scope (G4) that lasts until `t.cancel()` / `t.close()`
+def _timeout_start(st, args, kw):
+    from pyvc import calls
+    t = args[0]
+    started = st.ghost.setdefault('$timeout_started', set())
+    if t.z.get_id() not in started:
+        started.add(t.z.get_id())
+        calls._timeout_enter(st, t)
+    from pyvc.core import Val
+    return Val(T.NONE, T.PyVal.none)
+
+
+def _timeout_cancel(st, args, kw):
+    from pyvc import calls
+    t = args[0]
+    started = st.ghost.setdefault('$timeout_started', set())
+    if t.z.get_id() in started:
+        started.discard(t.z.get_id())
+        calls._timeout_exit(st, t, None, None)
+    from pyvc.core import Val
+    return Val(T.NONE, T.PyVal.none)
+
+
+extern('Timeout.start', model=_timeout_start, notes='gevent.Timeout.start(): arms the timer (opens a G4 scope)')
+extern('Timeout.cancel', model=_timeout_cancel, notes='gevent.Timeout.cancel(): disarms the timer (closes the scope it opened, if any)')
+extern('Timeout.close', model=_timeout_cancel, notes='gevent.Timeout.close() = cancel()')
